@@ -11,7 +11,7 @@ OVERLAY = {"gensign/regular/zz_verif_gensign_test.go": HARNESS_SRC}
 CFG = {
     "C01": dict(quick="MCGensign_c01", thorough="MCGensign_c01t", nrand=(1200, 12000)),
     "C02": dict(quick="MCGensign_c02", thorough="MCGensign_c02t", nrand=(1500, 15000)),
-    "C03": dict(quick="MCGensign_c03", thorough="MCGensign_c03t", nrand=(900, 12000)),
+    "C03": dict(quick="MCGensign_c03", thorough="MCGensign_c03t", nrand=(700, 12000)),
     "C04": dict(quick="MCGensign_c04", thorough="MCGensign_c04t", nrand=(1200, 12000)),
 }
 
@@ -87,7 +87,12 @@ def validate(prop, wd, fml, traces):
     vlib.write_ndjson(os.path.join(wd, "trace.ndjson"), recs)
     with open(os.path.join(wd, "Trace_run.cfg"), "w") as f:
         f.write(TRACE_CFG + "\nACTION_CONSTRAINT Rep%s\nPOSTCONDITION TraceAccepted\nCHECK_DEADLOCK FALSE\n" % fml[1:])
-    r = vlib.tlc(wd, "TraceGensign.tla", "Trace_run.cfg", workers=1, timeout=3000)
+    r = vlib.tlc(wd, "TraceGensign.tla", "Trace_run.cfg", workers=1, timeout=3000, heap="-Xmx3g")
+    if not r.violated and "Model checking completed. No error" not in r.stdout and "TraceAccepted" not in r.stdout:
+        # TLC itself failed (e.g. killed on an overloaded machine): one more attempt before giving up
+        log("[tlc] trace validation run failed (%s); retrying once" % (r.error or "no result")[:200])
+        time.sleep(5)
+        r = vlib.tlc(wd, "TraceGensign.tla", "Trace_run.cfg", workers=1, timeout=3000, heap="-Xmx3g")
     if r.violated or r.error or "Model checking completed. No error" not in r.stdout:
         raise NoVerdict("trace validation did not complete (the recorded file was not consumed to the end or TLC failed): %s\n%s"
                         % (r.violated or "", (r.error or r.stdout[-3000:])))
@@ -253,7 +258,7 @@ def run(prop, tier):
     # histories of several runs are replayed twice: every run in a new process image (fresh handler objects, new forwarded
     # connection) and all runs through ONE regular.Handler object over ONE connection ("u" = reuse)
     expect = {pc["id"]: c for pc, c in zip(plan_cases, cases)}
-    step = 1 if (tier == "quick" or prop in ("C01", "C02")) else 2
+    step = 1 if (prop in ("C01", "C02") or (tier == "quick" and prop == "C04")) else 2
     for pc, c in list(zip(plan_cases, cases))[::step]:
         if len(c["runs"]) > 1:
             pu = dict(pc, id=pc["id"] + "u", reuse=True)
